@@ -17,7 +17,11 @@ package loading
 //@   requires [same_len] len(annotationLines) == len(annotationLineNumbers)
 //@   requires [nonempty] len(annotationLines) > 0
 
+// C16: the script loader hands the annotation block to the YAML decoder verbatim - each collected line is the comment line
+// without its leading '#', indentation included (block-style maps depend on it), so a script target carries the same
+// fields as the same target written in YAML.
 //@ func (*scriptParser).parse(p) (pkg, found, err)
+//@   before_call append#1 [annotation_line_verbatim] len(arg2) == 1 && arg2[0] == sub(trimmedNext, 1, len(trimmedNext))
 //@ loop #2
 //@   invariant [same_len] len(annotationLines) == len(annotationLineNumbers)
 
